@@ -184,9 +184,20 @@ def install(I):
             return n
         if v is None:
             I.raise_py(TypeError, "object of type 'NoneType' has no len()")
+        if isinstance(v, IN.OpaqueAttr):
+            # used as a value: one unknown length per attribute of an opaque value (same question, same answer)
+            store = cur().ghost.setdefault("opaque_attr_len", {})
+            key = (id(v.base), v.name)
+            if key not in store:
+                store[key] = core.sym_int(f"len(.{v.name})")
+                cur().assume(store[key] >= 0)
+            return store[key]
         try:
             return len(v)
         except TypeError as e:
+            if getattr(v, "__pyvc_symbolic__", False):
+                # a theory value without a length model: what the real object answers is not known - never a verdict
+                raise core.Unsupported(f"len() of theory value {type(v).__name__} is not modelled")
             raise PyExc(I.make_exc(TypeError, *e.args))
 
     @model(builtins.enumerate)
